@@ -26,7 +26,7 @@ RULE = (
 )
 EXHAUSTIVE_PART = "every stream on 2 columns x 3 rows (quick) / 2 x 4 rows and 3 columns x 3 rows (thorough) over {empty, tap, hold head, tail, mine} x all 30 option sets"
 ASSUMPTIONS = ["vmon/ref/grouping.py states the documented rules"]
-MONITORS = ["group", "group_raises", "count_steps", "count_mines", "count_holds_rolls"]
+MONITORS = ["group", "group_raises", "count_steps", "count_mines", "count_holds_rolls", "interleaved_generators"]
 REQUIRED = ["overlapping_holds", "interrupted_head", "orphan_tail", "unclosed_head", "same_beat_mixed_types",
             "corpus_chart", "interrupted_head_while_younger_open", "type_subset", "stream_given_as_notedata",
             "full_row_with_minimum_equal_to_columns", "consecutive_notes_less_than_a_tick_apart",
@@ -93,6 +93,10 @@ def cases(ctx):
     for _ in range(ctx.split(12 if quick else 16 * 60)):
         columns, notes = G.gen_chain(rng, malformed=rng.choice([0.0, 0.0, 0.0, 0.01]))
         yield {"kind": "random", "notes": notes, "include": None, "minimum": rng.randint(1, 4), "chain": True}
+    if ctx.shard == 0:
+        # one hold with more than a thousand notes under it, all released at once when it ends
+        long_hold = [[0, 1, 0, "2", None]] + [[r, 4, 1 + (r % 2), "1", None] for r in range(1, 1300)] + [[400, 1, 0, "3", None]]
+        yield {"kind": "random", "notes": long_hold, "include": None, "minimum": 1, "chain": True}
     n = ctx.split(800 if quick else 16 * 30000)
     for i in range(n):
         types = rng.choice(["1234M", "1234M", "234", "1234AFKLM", "12344M3", "23"])
@@ -248,6 +252,26 @@ def run_stream(ctx, notes, include, minimum, case):
             ctx.violation(f"group:{key}:{want[0]}-vs-{got[0]}",
                           {"options": key, "include": sorted(inc_model), "want": repr(want)[:600], "got": repr(got)[:600]},
                           case=case)
+
+    # two generators over the same stream consumed in lock-step (zip), with a count taken while both are suspended:
+    # each must still yield what it yields alone
+    if len(real) <= 400:
+        for sb in (R.BY_TYPE, R.ALL):
+            ctx.mon("interleaved_generators")
+            try:
+                alone = [[real_item(x) for x in g] for g in group_notes(iter(real), include_note_types=inc_real, same_beat_notes=SB[sb])]
+                g1 = group_notes(iter(real), include_note_types=inc_real, same_beat_notes=SB[sb])
+                g2 = group_notes(iter(real), include_note_types=inc_real, same_beat_notes=SB[sb])
+                o1, o2 = [], []
+                for a, b in zip(g1, g2):
+                    o1.append([real_item(x) for x in a])
+                    C.count_steps(iter(real[:6]), same_beat_notes=SB[sb])
+                    o2.append([real_item(x) for x in b])
+                if o1 != alone or o2 != alone:
+                    ctx.violation(f"group:sb{sb}:two-generators-consumed-in-lock-step-disturb-each-other",
+                                  {"alone": repr(alone)[:300], "first": repr(o1)[:300], "second": repr(o2)[:300]}, case=case)
+            except OrphanedNoteException:
+                pass
 
     # counting functions
     mins = [minimum] if minimum else [1, 2, 3]
